@@ -29,6 +29,12 @@ CONFIGS = {
     "scalar": [],
     "avx2": ["-DQENTEM_AVX2=1", "-mavx2"],
     "sse2-noescape": ["-DQENTEM_SSE2=1", "-msse2", "-DQENTEM_AUTO_ESCAPE_HTML=0"],
+    # character widths of the instantiation driver (drivers/inst.cpp)
+    "char16": ["-DQENTEM_SSE2=1", "-msse2", "-DQCHAR=char16_t", "-DQWIDE"],
+    "char32": ["-DQENTEM_SSE2=1", "-msse2", "-DQCHAR=char32_t", "-DQWIDE"],
+    "wchar": ["-DQENTEM_SSE2=1", "-msse2", "-DQCHAR=wchar_t", "-DQWIDE"],
+    "char16-avx2": ["-DQENTEM_AVX2=1", "-mavx2", "-DQCHAR=char16_t", "-DQWIDE"],
+    "char32-scalar": ["-DQCHAR=char32_t", "-DQWIDE"],
 }
 
 
